@@ -238,4 +238,138 @@ example : dyadicDurs (-3) ⟨1 / 8, 120⟩ 0
   refine ⟨1, 2, by norm_num, by norm_num [specFactor], by norm_num, 1, 6, by norm_num, by norm_num [specFactor],
     by norm_num, 1, 1, by norm_num, by norm_num [specFactor], by norm_num, trivial⟩
 
+
+/-- THE DEFAULT UNIT NOTE LENGTH, any rounding: the code compares the FLOAT quotient `n / d` of the
+meter with 0.75.  For a meter denominator `0 < d ≤ 2^51` the float comparison decides exactly what the
+exact one does (`3/4 - 2^-53` is a float, and no fraction `n/d < 3/4` with such a `d` lies above it), so
+`_set_unit_note_length_from_header` returns what `abc_default_unit` says, for every `R`. -/
+theorem abc_float_default_unit (hR : Rounding R) (st : St)
+    (hm : ∀ t n d, st.timeSigs = [(t, n, d)] → 0 < d ∧ d ≤ 2 ^ 51) :
+    setUnitFromHeader R st = setUnitFromHeader id st := by
+  have hp : 1 ≤ 53 := by norm_num
+  unfold setUnitFromHeader
+  split
+  · rfl
+  · split
+    · rfl
+    · rename_i t n d hts
+      obtain ⟨hd0, hd1⟩ := hm t n d hts
+      have hdq : (0 : ℚ) < d := by exact_mod_cast hd0
+      have hdne : d ≠ 0 := by omega
+      simp only [hdne, ↓reduceIte, id]
+      have h34 : R (3 / 4) = 3 / 4 := by
+        have := hR.exact_dyadic hp 3 (by norm_num) (-2)
+        norm_num at this ⊢
+        exact this
+      have hiff : R ((n : ℚ) / d) < Gen.UNIT_THRESHOLD ↔ (n : ℚ) / d < Gen.UNIT_THRESHOLD := by
+        unfold Gen.UNIT_THRESHOLD
+        constructor
+        · intro h
+          by_contra hc
+          have := hR.mono (3 / 4) ((n : ℚ) / d) (not_lt.mp hc)
+          rw [h34] at this
+          linarith
+        · intro h
+          -- `n/d ≤ 3/4 - 1/(4d) ≤ 3/4 - 2^-53`, which is a float
+          have h4 : 4 * n < 3 * d := by
+            have : (n : ℚ) < 3 / 4 * d := by rwa [div_lt_iff₀ hdq] at h
+            have : (4 * n : ℚ) < 3 * d := by linarith
+            exact_mod_cast this
+          have h4' : (4 * n : ℚ) ≤ 3 * d - 1 := by
+            have : 4 * n ≤ 3 * d - 1 := by omega
+            exact_mod_cast this
+          have hy : R (3 / 4 - 1 / 2 ^ 53) = 3 / 4 - 1 / 2 ^ 53 := by
+            have := hR.exact_dyadic hp (3 * 2 ^ 51 - 1) (by norm_num) (-53)
+            have e : (((3 * 2 ^ 51 - 1 : ℤ)) : ℚ) * 2 ^ (-53 : ℤ) = 3 / 4 - 1 / 2 ^ 53 := by
+              rw [zpow_neg]; push_cast; norm_num
+            rw [e] at this
+            exact this
+          have hx : (n : ℚ) / d ≤ 3 / 4 - 1 / 2 ^ 53 := by
+            rw [div_le_iff₀ hdq]
+            have hd51 : (d : ℚ) ≤ 2 ^ 51 := by exact_mod_cast hd1
+            nlinarith
+          have := hR.mono _ _ hx
+          rw [hy] at this
+          have : (0 : ℚ) < 1 / 2 ^ 53 := by positivity
+          linarith
+      by_cases hc : (n : ℚ) / d < Gen.UNIT_THRESHOLD
+      · rw [if_pos (hiff.mpr hc), if_pos hc]
+      · rw [if_neg (fun h => hc (hiff.mp h)), if_neg hc]
+    · rfl
+
+/-- the hypothesis on the denominator cannot be dropped: the meter `(3·2^53 − 1) / 2^55` is below 3/4
+but its float quotient IS 0.75, so the code picks 1/8 where the exact rule gives 1/16 -/
+example : ((3 * 2 ^ 53 - 1 : ℤ) : ℚ) / ((2 ^ 55 : ℤ) : ℚ) < 3 / 4 ∧
+    rne53 (((3 * 2 ^ 53 - 1 : ℤ) : ℚ) / ((2 ^ 55 : ℤ) : ℚ)) = 3 / 4 := by
+  refine ⟨by norm_num, by decide +kernel⟩
+
+
+/-- BROKEN RHYTHM, any rounding: when `_apply_broken_rhythm` accepts the last two notes `n1`, `n2` (which
+share the boundary `t = n1.end = n2.start`, a float), the boundary STAYS shared — both notes get the very
+same float `b` — the first note keeps its start, the second its end, everything before is untouched; the
+shift is `adj = R (l1·(1 − 2^-k))` with `l1 = R (t − n1.start)` the float length of the first note
+(`l1 / 2^k` is exact), `0 ≤ adj ≤ l1`; `>` moves the boundary to `R (t + adj) ≥ t`, `<` to `R (t − adj) ≤ t`. -/
+theorem abc_float_broken (hR : Rounding R) (pre L : List Note) (n1 n2 : Note) (gt : Bool) (k : Nat)
+    (hc : n1.end_ = n2.start) (hfix : R n1.end_ = n1.end_) (h1 : n1.start ≤ n1.end_)
+    (h : applyBroken R (pre ++ [n1, n2]) gt k = .ok L) :
+    ∃ adj b, L = pre ++ [{ n1 with end_ := b }, { n2 with start := b }] ∧
+      adj = R (R (n1.end_ - n1.start) * (1 - 1 / 2 ^ k)) ∧ 0 ≤ adj ∧ adj ≤ R (n1.end_ - n1.start) ∧
+      (gt = true → b = R (n1.end_ + adj) ∧ n1.end_ ≤ b) ∧ (gt = false → b = R (n1.end_ - adj) ∧ b ≤ n1.end_) := by
+  have hl0 : 0 ≤ R (n1.end_ - n1.start) := hR.nonneg (by linarith)
+  have hdiv : R (R (n1.end_ - n1.start) / 2 ^ k) = R (n1.end_ - n1.start) / 2 ^ k := by
+    have := hR.exact_pow2_mul (R (n1.end_ - n1.start)) (-(k : ℤ))
+    rw [hR.idem, zpow_neg, zpow_natCast] at this
+    rw [div_eq_mul_inv]; exact this
+  have h2k : (0 : ℚ) < 2 ^ k := by positivity
+  have hle1 : (1 : ℚ) / 2 ^ k ≤ 1 := by
+    rw [div_le_one h2k]; exact one_le_pow₀ (by norm_num)
+  have hadj : R (R (n1.end_ - n1.start) - R (R (n1.end_ - n1.start) / 2 ^ k)) =
+      R (R (n1.end_ - n1.start) * (1 - 1 / 2 ^ k)) := by
+    rw [hdiv]; congr 1; ring
+  have hadj0 : 0 ≤ R (R (n1.end_ - n1.start) * (1 - 1 / 2 ^ k)) :=
+    hR.nonneg (mul_nonneg hl0 (by linarith))
+  have hadj1 : R (R (n1.end_ - n1.start) * (1 - 1 / 2 ^ k)) ≤ R (n1.end_ - n1.start) := by
+    have h0k : (0 : ℚ) ≤ 1 / 2 ^ k := by positivity
+    have := hR.mono (R (n1.end_ - n1.start) * (1 - 1 / 2 ^ k)) (R (n1.end_ - n1.start))
+      (mul_le_of_le_one_right hl0 (by linarith))
+    rwa [hR.idem] at this
+  unfold applyBroken at h
+  have hrev : (pre ++ [n1, n2]).reverse = n2 :: n1 :: pre.reverse := by simp
+  rw [hrev] at h
+  simp only [List.reverse_reverse] at h
+  split at h
+  · simp at h
+  rw [hadj, ← hc] at h
+  cases gt with
+  | true =>
+    simp only [↓reduceIte, Except.ok.injEq] at h
+    refine ⟨_, R (n1.end_ + R (R (n1.end_ - n1.start) * (1 - 1 / 2 ^ k))), h.symm, rfl, hadj0, hadj1, ?_, by simp⟩
+    intro _
+    refine ⟨rfl, ?_⟩
+    have := hR.mono n1.end_ (n1.end_ + R (R (n1.end_ - n1.start) * (1 - 1 / 2 ^ k))) (by linarith)
+    rwa [hfix] at this
+  | false =>
+    simp only [Bool.false_eq_true, ↓reduceIte, Except.ok.injEq] at h
+    refine ⟨_, R (n1.end_ - R (R (n1.end_ - n1.start) * (1 - 1 / 2 ^ k))), h.symm, rfl, hadj0, hadj1, by simp, ?_⟩
+    intro _
+    refine ⟨rfl, ?_⟩
+    have := hR.mono (n1.end_ - R (R (n1.end_ - n1.start) * (1 - 1 / 2 ^ k))) n1.end_ (by linarith)
+    rwa [hfix] at this
+
+/-- non-vacuity: `L:1/8`, 100 qpm, `A>B` in float64: the two notes 0–0.3 and 0.3–0.6 (floats) become
+0–b and b–0.6 with one shared float `b` -/
+example : ∃ L b, applyBroken rne53 [⟨69, 90, 0, rne53 (3 / 10)⟩, ⟨71, 90, rne53 (3 / 10), rne53 (rne53 (3 / 10) + rne53 (3 / 10))⟩]
+      true 1 = .ok L ∧
+    L = [⟨69, 90, 0, b⟩, ⟨71, 90, b, rne53 (rne53 (3 / 10) + rne53 (3 / 10))⟩] ∧ rne53 (3 / 10) ≤ b := by
+  have hok : (match applyBroken rne53 [⟨69, 90, 0, rne53 (3 / 10)⟩,
+      ⟨71, 90, rne53 (3 / 10), rne53 (rne53 (3 / 10) + rne53 (3 / 10))⟩] true 1 with
+      | .ok _ => true | .error _ => false) = true := by decide +kernel
+  cases hx : applyBroken rne53 [⟨69, 90, 0, rne53 (3 / 10)⟩,
+      ⟨71, 90, rne53 (3 / 10), rne53 (rne53 (3 / 10) + rne53 (3 / 10))⟩] true 1 with
+  | error e => rw [hx] at hok; simp at hok
+  | ok L =>
+    obtain ⟨adj, b, hL, _, _, _, hgt, _⟩ := abc_float_broken rounding_rne53 [] L _ _ true 1 rfl
+      (rounding_rne53.idem _) (by decide +kernel) hx
+    exact ⟨L, b, rfl, by simpa using hL, (hgt rfl).2⟩
+
 end NSV.C04
